@@ -2,41 +2,56 @@ package main
 
 import (
 	"bufio"
+	"bytes"
+	"context"
 	"encoding/json"
 	"fmt"
-	"os"
+	"reflect"
 	"sort"
 	"strconv"
 	"strings"
+	"unsafe"
 
+	"github.com/specterops/dawgs/drivers/pg"
 	"github.com/specterops/dawgs/graph"
 )
 
-// C12: entity change tracking (graph/properties.go, graph/node.go, graph/kind.go, graph/relationships.go)
-// against the Lean model Dawgs.C12.
+// C12: entity change tracking (graph/properties.go, graph/node.go, graph/kind.go, graph/relationships.go) and its
+// consumers (drivers/pg batch update builders) against the Lean model Dawgs.C12.
 //
 // Line protocol (one answer line per op line):
 //
-//	mode current|fixed            which Properties.Merge / Node.Merge the *model* runs (the implementation is what it is)
-//	load <map> <kinds>            two tracked entities (graph.Node 0 and 1) are created from the same loaded state
-//	                              <map>   = nil | - | a:1,b:2     (nil: NewProperties(); else AsProperties(fresh map))
-//	                              <kinds> = - | A,B
-//	set e k v | setall e <map> | del e k
-//	get e k | gd e k d | ex e k | len e        reads (Get().Any(), GetOrDefault().Any(), Exists, Len)
+//	mode fixed|old                which merges the *model* runs: `fixed` = the code as it is (default); `old` (alias
+//	                              `current`) = the merges before /repo commit 179da67, only for old replay files
+//	load <map> <kinds> [<ctor> [<entity>]]
+//	                              two tracked entities 0 and 1 are created from the same loaded state
+//	                              <map>    = nil | - | a:1,b:2
+//	                              <kinds>  = - | A,B            (exactly one kind for relationships)
+//	                              <ctor>   = as (AsProperties(map[string]any), default; NewProperties() for nil) | new
+//	                                         (NewProperties) | red (NewPropertiesRed) | sym (AsProperties(map[graph.String]any))
+//	                                         | pm (AsProperties(graph.PropertyMap))
+//	                              <entity> = node (NewNode, default) | prep (PrepareNode, nil kinds interleaved) |
+//	                                         rel (NewRelationship) | prel (PrepareRelationship)
+//	set e k v | setall e <map> | del e k          (setall nil = SetAll(nil map))
+//	get e k | gd e k d | gf e k d k2,k3 | ex e k | len e | keys e
+//	                              reads: Get().Any(), GetOrDefault().Any(), GetWithFallback().Any(), Exists, Len, Keys(nil)
 //	clone e f                     f.Properties = e.Properties.Clone()
-//	pmerge e f                    e.Properties.Merge(f.Properties)   (Relationship.Merge / pg batch path)
-//	merge e f                     e.Merge(f)                         (Node.Merge: kinds, then Properties.Merge)
-//	addk e A,_,B | delk e A,B     Node.AddKinds / Node.DeleteKinds   (_ = nil Kind, AddKinds only)
+//	pmerge e f                    e.Properties.Merge(f.Properties)   (pg relationship batch path)
+//	merge e f                     e.Merge(f)                         (Node.Merge: kinds, then Properties.Merge; nodes only)
+//	rmerge e f                    e.Merge(f)                         (Relationship.Merge; relationships only)
+//	addk e A,_,B | delk e A,B     Node.AddKinds / Node.DeleteKinds   (_ = nil Kind, AddKinds only; nodes only)
+//	drv e                         what the pg batch update builders send for entity e (nodes only):
+//	                              NodeUpdateParameters.Append and LargeNodeUpdateRows.Append must agree; answer
+//	                              `u kinds=<ids> dkinds=<ids> props=<map> dprops=<set>`
 //
 // Answer: `<ret> | <dump of entity 0> | <dump of entity 1>`; a dump is
 // `M=<map> mod=<set> del=<set> mp=<map> dp=<set> K=<list> add=<list> rem=<list>` where M/mod/del are the raw fields
 // (nil | - | sorted), mp/dp are ModifiedProperties()/DeletedProperties() (what the drivers send) and K/add/rem are
-// Kinds/AddedKinds/DeletedKinds in slice order.  Values are small codes: 0=nil 1,2,3=ints 4="x" 5="y" 6=true 7=false
-// 8=[1,"x"] 9={"k":1}.
+// Kinds/AddedKinds/DeletedKinds in slice order (a relationship shows its one Kind and empty deltas).  Values are small
+// codes: 0=nil 1,2,3=ints 4="x" 5="y" 6=true 7=false 8=[1,"x"] 9={"k":1}.
 
-// c12Mode is the merge the Lean model is asked to run for generated cases ("current" = the code as it is in /repo with
-// finding F4; "fixed" = hooks/C12-fix.patch applied).  Flip with `python3 lib/c12_flip.py fixed` after the fix is
-// committed to /repo.  VERIF_C12_MODE overrides it (used for scratch-worktree experiments only).
+// c12Mode is the merge the Lean model is asked to run for generated cases: "fixed" = the code as it is in /repo since
+// commit 179da67.  ("old" would ask for the merges before that commit; lib/c12_flip.py exists only to go back.)
 var c12Mode = "fixed"
 
 type c12Suite struct{}
@@ -176,8 +191,7 @@ func c12KindsStr(ks graph.Kinds) string {
 	return strings.Join(out, ",")
 }
 
-func c12Dump(n *graph.Node) string {
-	p := n.Properties
+func c12Dump(p *graph.Properties, kinds, added, deleted graph.Kinds) string {
 	dp := p.DeletedProperties()
 	dps := "nil"
 	if dp != nil {
@@ -191,15 +205,24 @@ func c12Dump(n *graph.Node) string {
 	return fmt.Sprintf("M=%s mod=%s del=%s mp=%s dp=%s K=%s add=%s rem=%s",
 		c12MapStr(p.Map, p.Map == nil), c12SetStr(p.Modified), c12SetStr(p.Deleted),
 		c12MapStr(mp, mp == nil), dps,
-		c12KindsStr(n.Kinds), c12KindsStr(n.AddedKinds), c12KindsStr(n.DeletedKinds))
+		c12KindsStr(kinds), c12KindsStr(added), c12KindsStr(deleted))
 }
+
+type c12Sym string
+
+func (s c12Sym) String() string { return string(s) }
 
 type c12Runner struct {
 	stats *Stats
+	isRel bool
 	n     [2]*graph.Node
+	r     [2]*graph.Relationship
 	// caller-side kind slices handed to NewNode (aliasing information, DESIGN §4 C12 "not verified")
 	callerKinds [2][]graph.Kind
 	callerCopy  [2][]graph.Kind
+	// consumers (drivers/pg batch builders)
+	sm  *pg.SchemaManager
+	enc pg.Int2ArrayEncoder
 }
 
 func (c12Suite) NewRunner(stats *Stats) Runner { return &c12Runner{stats: stats} }
@@ -214,8 +237,30 @@ func (r *c12Runner) ent(tok string) (int, bool) {
 	return 0, false
 }
 
+func (r *c12Runner) props(e int) *graph.Properties {
+	if r.isRel {
+		return r.r[e].Properties
+	}
+	return r.n[e].Properties
+}
+
+func (r *c12Runner) setProps(e int, p *graph.Properties) {
+	if r.isRel {
+		r.r[e].Properties = p
+	} else {
+		r.n[e].Properties = p
+	}
+}
+
+func (r *c12Runner) dump(e int) string {
+	if r.isRel {
+		return c12Dump(r.r[e].Properties, graph.Kinds{r.r[e].Kind}, nil, nil)
+	}
+	return c12Dump(r.n[e].Properties, r.n[e].Kinds, r.n[e].AddedKinds, r.n[e].DeletedKinds)
+}
+
 func (r *c12Runner) withDump(ret string) string {
-	return ret + " | " + c12Dump(r.n[0]) + " | " + c12Dump(r.n[1])
+	return ret + " | " + r.dump(0) + " | " + r.dump(1)
 }
 
 func has(m map[string]struct{}, k string) bool { _, ok := m[k]; return ok }
@@ -257,46 +302,125 @@ func (r *c12Runner) countPropsMerge(s, o *graph.Properties) {
 	}
 }
 
+// c12NewProps builds the properties of one entity with the requested constructor from a FRESH map.
+func c12NewProps(mapTok, ctor string) (*graph.Properties, bool) {
+	m, isNil, ok := c12ParseMap(mapTok)
+	if !ok {
+		return nil, false
+	}
+	switch ctor {
+	case "as":
+		if isNil {
+			return graph.NewProperties(), true
+		}
+		return graph.AsProperties(m), true
+	case "asnil": // AsProperties of a nil map[string]any
+		if !isNil {
+			return nil, false
+		}
+		return graph.AsProperties(map[string]any(nil)), true
+	case "new":
+		if !isNil {
+			return nil, false
+		}
+		return graph.NewProperties(), true
+	case "red":
+		if !isNil {
+			return nil, false
+		}
+		return graph.NewPropertiesRed(), true
+	case "sym":
+		if isNil {
+			return nil, false
+		}
+		sm := map[graph.String]any{}
+		for k, v := range m {
+			sm[c12Sym(k)] = v
+		}
+		return graph.AsProperties(sm), true
+	case "pm":
+		if isNil {
+			return nil, false
+		}
+		pmap := graph.PropertyMap{}
+		for k, v := range m {
+			pmap[c12Sym(k)] = v
+		}
+		return graph.AsProperties(pmap), true
+	}
+	return nil, false
+}
+
+func (r *c12Runner) load(t []string) string {
+	st := r.stats
+	ctor, entity := "as", "node"
+	if len(t) >= 4 {
+		ctor = t[3]
+	}
+	if len(t) >= 5 {
+		entity = t[4]
+	}
+	ks, ok2 := c12ParseKinds(t[2], false)
+	if _, ok1 := c12NewProps(t[1], ctor); !ok1 || !ok2 || len(t) > 5 {
+		return "bad-op"
+	}
+	r.isRel = entity == "rel" || entity == "prel"
+	if r.isRel && len(ks) != 1 {
+		return "bad-op"
+	}
+	for i := 0; i < 2; i++ {
+		p, _ := c12NewProps(t[1], ctor) // a fresh map per entity
+		switch entity {
+		case "node", "prep":
+			own := append([]graph.Kind(nil), ks...)
+			r.callerKinds[i] = own
+			r.callerCopy[i] = append([]graph.Kind(nil), own...)
+			if entity == "node" {
+				r.n[i] = graph.NewNode(graph.ID(i+1), p, own...)
+			} else {
+				// PrepareNode drops nil kinds: interleave some
+				withNils := []graph.Kind{nil}
+				for _, k := range own {
+					withNils = append(withNils, k, nil)
+				}
+				r.n[i] = graph.PrepareNode(p, withNils...)
+				r.callerKinds[i], r.callerCopy[i] = nil, nil
+			}
+		case "rel":
+			r.r[i] = graph.NewRelationship(graph.ID(i+1), 10, 20, p, ks[0])
+		case "prel":
+			r.r[i] = graph.PrepareRelationship(p, ks[0])
+		default:
+			return "bad-op"
+		}
+	}
+	st.Inc("branch.load.ctor." + ctor)
+	st.Inc("branch.load.entity." + entity)
+	if t[1] == "nil" {
+		st.Inc("branch.load.nil_map")
+	}
+	return r.withDump("ok")
+}
+
 func (r *c12Runner) Step(t []string, raw string) string {
 	st := r.stats
 	if len(t) == 2 && t[0] == "mode" {
-		if t[1] == "current" || t[1] == "fixed" {
+		if t[1] == "current" || t[1] == "fixed" || t[1] == "old" {
 			return "ok"
 		}
 		return "bad-op"
 	}
-	if len(t) == 3 && t[0] == "load" {
-		ks, ok2 := c12ParseKinds(t[2], false)
-		if _, _, ok1 := c12ParseMap(t[1]); !ok1 || !ok2 {
-			return "bad-op"
-		}
-		for i := 0; i < 2; i++ {
-			m, isNil, _ := c12ParseMap(t[1]) // a fresh map per entity
-			var p *graph.Properties
-			if isNil {
-				p = graph.NewProperties()
-			} else {
-				p = graph.AsProperties(m)
-			}
-			own := append([]graph.Kind(nil), ks...)
-			r.callerKinds[i] = own
-			r.callerCopy[i] = append([]graph.Kind(nil), own...)
-			r.n[i] = graph.NewNode(graph.ID(i+1), p, own...)
-		}
-		if t[1] == "nil" {
-			st.Inc("branch.load.nil_map")
-		}
-		return r.withDump("ok")
+	if len(t) >= 3 && t[0] == "load" {
+		return r.load(t)
 	}
-	if r.n[0] == nil || len(t) < 2 {
+	if (r.n[0] == nil && r.r[0] == nil) || len(t) < 2 {
 		return "bad-op"
 	}
 	e, ok := r.ent(t[1])
 	if !ok {
 		return "bad-op"
 	}
-	n := r.n[e]
-	p := n.Properties
+	p := r.props(e)
 	switch {
 	case t[0] == "set" && len(t) == 4:
 		c, err := strconv.Atoi(t[3])
@@ -322,10 +446,12 @@ func (r *c12Runner) Step(t []string, raw string) string {
 		if !ok {
 			return "bad-op"
 		}
-		if isNil || len(m) == 0 {
+		switch {
+		case isNil:
+			st.Inc("branch.setall.nil_map")
+		case len(m) == 0:
 			st.Inc("branch.setall.empty")
-		}
-		if len(m) > 1 {
+		case len(m) > 1:
 			st.Inc("branch.setall.multi")
 		}
 		p.SetAll(m)
@@ -360,6 +486,31 @@ func (r *c12Runner) Step(t []string, raw string) string {
 			st.Inc("branch.gd.absent_default")
 		}
 		return r.withDump("v" + c12Code(p.GetOrDefault(t[2], c12Value(c)).Any()))
+	case t[0] == "gf" && len(t) == 5:
+		c, err := strconv.Atoi(t[3])
+		if err != nil || c < 0 || c > 9 {
+			return "bad-op"
+		}
+		fb := strings.Split(t[4], ",")
+		if v, in := p.Map[t[2]]; in && v == nil {
+			st.Inc("branch.gf.nil_value_default")
+		} else if in {
+			st.Inc("branch.gf.hit")
+		} else {
+			used := false
+			for _, k := range fb {
+				if fv, fin := p.Map[k]; fin && fv != nil {
+					used = true
+					break
+				}
+			}
+			if used {
+				st.Inc("branch.gf.fallback_used")
+			} else {
+				st.Inc("branch.gf.fallback_exhausted")
+			}
+		}
+		return r.withDump("v" + c12Code(p.GetWithFallback(t[2], c12Value(c), fb...).Any()))
 	case t[0] == "ex" && len(t) == 3:
 		if p.Exists(t[2]) {
 			return r.withDump("t")
@@ -367,6 +518,12 @@ func (r *c12Runner) Step(t []string, raw string) string {
 		return r.withDump("f")
 	case t[0] == "len" && len(t) == 2:
 		return r.withDump("n" + strconv.Itoa(p.Len()))
+	case t[0] == "keys" && len(t) == 2:
+		ks := p.Keys(nil)
+		if len(ks) == 0 {
+			return r.withDump("k-")
+		}
+		return r.withDump("k" + strings.Join(ks, ","))
 	case t[0] == "clone" && len(t) == 3:
 		f, ok := r.ent(t[2])
 		if !ok {
@@ -378,16 +535,31 @@ func (r *c12Runner) Step(t []string, raw string) string {
 		if p.Modified != nil || p.Deleted != nil {
 			st.Inc("branch.clone.tracked")
 		}
-		r.n[f].Properties = p.Clone()
+		r.setProps(f, p.Clone())
 		return r.withDump("ok")
 	case t[0] == "pmerge" && len(t) == 3:
 		f, ok := r.ent(t[2])
 		if !ok {
 			return "bad-op"
 		}
-		r.countPropsMerge(p, r.n[f].Properties)
-		p.Merge(r.n[f].Properties)
+		r.countPropsMerge(p, r.props(f))
+		p.Merge(r.props(f))
 		return r.withDump("ok")
+	case t[0] == "rmerge" && len(t) == 3:
+		f, ok := r.ent(t[2])
+		if !ok || !r.isRel {
+			return "bad-op"
+		}
+		st.Inc("branch.rmerge")
+		r.countPropsMerge(p, r.props(f))
+		r.r[e].Merge(r.r[f])
+		return r.withDump("ok")
+	}
+	if r.isRel {
+		return "bad-op"
+	}
+	n := r.n[e]
+	switch {
 	case t[0] == "merge" && len(t) == 3:
 		f, ok := r.ent(t[2])
 		if !ok {
@@ -460,8 +632,120 @@ func (r *c12Runner) Step(t []string, raw string) string {
 			}
 		}
 		return r.withDump("ok")
+	case t[0] == "drv" && len(t) == 2:
+		return r.withDump(r.drv(n))
 	}
 	return "bad-op"
+}
+
+// ---------------------------------------------------------------------------------------------- consumers
+
+// c12SetField sets an unexported field of a driver struct (the pg SchemaManager kind table and the Int2ArrayEncoder
+// buffer have no exported constructor usable without a database); a renamed field makes drv answer `bad-driver-shape`.
+func c12SetField(structPtr any, name string, value any) bool {
+	v := reflect.ValueOf(structPtr).Elem()
+	f := v.FieldByName(name)
+	if !f.IsValid() || !reflect.TypeOf(value).AssignableTo(f.Type()) {
+		return false
+	}
+	reflect.NewAt(f.Type(), unsafe.Pointer(f.UnsafeAddr())).Elem().Set(reflect.ValueOf(value))
+	return true
+}
+
+func (r *c12Runner) initDrivers() bool {
+	if r.sm != nil {
+		return true
+	}
+	sm := pg.NewSchemaManager(nil, 0)
+	kinds := map[graph.Kind]int16{}
+	for i, k := range c12Kinds {
+		kinds[graph.StringKind(k)] = int16(i + 1)
+	}
+	if !c12SetField(sm, "kindsByID", kinds) || !c12SetField(&r.enc, "buffer", &bytes.Buffer{}) {
+		return false
+	}
+	r.sm = sm
+	return true
+}
+
+func c12KindIDs(encoded string) string { // "{1,2}" -> "A,B" in the order sent
+	inner := strings.Trim(encoded, "{}")
+	if inner == "" {
+		return "-"
+	}
+	out := []string{}
+	for _, x := range strings.Split(inner, ",") {
+		i, err := strconv.Atoi(x)
+		if err != nil || i < 1 || i > len(c12Kinds) {
+			return "?"
+		}
+		out = append(out, c12Kinds[i-1])
+	}
+	return strings.Join(out, ",")
+}
+
+func c12JSONProps(raw []byte) string {
+	m := map[string]any{}
+	if err := json.Unmarshal(raw, &m); err != nil {
+		return "?"
+	}
+	return c12MapStr(m, false)
+}
+
+func c12TextArray(s string) string { // `{"a","b"}` -> a,b sorted
+	inner := strings.Trim(s, "{}")
+	if inner == "" {
+		return "-"
+	}
+	out := []string{}
+	for _, x := range strings.Split(inner, ",") {
+		u, err := strconv.Unquote(x)
+		if err != nil {
+			return "?"
+		}
+		out = append(out, u)
+	}
+	sort.Strings(out)
+	return strings.Join(out, ",")
+}
+
+// drv: the parameters the two pg batch node-update builders emit for this node.
+func (r *c12Runner) drv(n *graph.Node) string {
+	if !r.initDrivers() {
+		return "bad-driver-shape"
+	}
+	ctx := context.Background()
+	params := pg.NewNodeUpdateParameters(1)
+	if err := params.Append(ctx, n, r.sm, r.enc); err != nil {
+		return "err " + strings.ReplaceAll(err.Error(), " ", "_")
+	}
+	small := fmt.Sprintf("kinds=%s dkinds=%s props=%s dprops=%s", c12KindIDs(params.KindSlices[0]), c12KindIDs(params.DeletedKindSlices[0]),
+		c12JSONProps(params.Properties[0].Bytes), c12TextArray(params.DeletedProperties[0]))
+	rows := pg.NewLargeNodeUpdateRows(1)
+	if err := rows.Append(ctx, n, r.sm, r.enc); err != nil {
+		return "err " + strings.ReplaceAll(err.Error(), " ", "_")
+	}
+	row := rows.Rows()[0]
+	if len(row) != 5 {
+		return "bad-driver-shape"
+	}
+	large := fmt.Sprintf("kinds=%s dkinds=%s props=%s dprops=%s", c12KindIDs(fmt.Sprint(row[1])), c12KindIDs(fmt.Sprint(row[2])),
+		c12JSONProps([]byte(fmt.Sprint(row[3]))), c12TextArray(fmt.Sprint(row[4])))
+	if fmt.Sprint(row[0]) != fmt.Sprint(params.NodeIDs[0].Int64()) {
+		return "builders-disagree id"
+	}
+	if small != large {
+		r.stats.Inc("branch.drv.builders_disagree")
+		return "builders-disagree " + strings.ReplaceAll(small, " ", ";") + " vs " + strings.ReplaceAll(large, " ", ";")
+	}
+	r.stats.Inc("branch.drv")
+	if len(n.Properties.Deleted) > 0 {
+		r.stats.Inc("branch.drv.with_deleted_properties")
+	}
+	if len(n.DeletedKinds) > 0 {
+		r.stats.Inc("branch.drv.with_deleted_kinds")
+	}
+	return "u " + small
 }
 
 // ---------------------------------------------------------------------------------------------- generation
@@ -515,9 +799,6 @@ func c12PickKinds(rng *Rng, allowNil, nonEmpty bool) string {
 
 func (c12Suite) Gen(rng *Rng, tier string, w *bufio.Writer, stats *Stats) {
 	mode := c12Mode
-	if m := os.Getenv("VERIF_C12_MODE"); m == "current" || m == "fixed" {
-		mode = m
-	}
 	caseNo := 0
 	emit := func(tag, load string, ops []string) {
 		caseNo++
@@ -551,13 +832,17 @@ func (c12Suite) Gen(rng *Rng, tier string, w *bufio.Writer, stats *Stats) {
 	}
 	// Exhaustive small scope. A case of length L dumps after every op, so it also covers all its prefixes.
 	full := []string{
-		"set 0 a 2", "set 1 a 3", "set 0 a 0", "set 1 b 4", "setall 0 a:1,c:5", "del 0 a", "del 1 a", "del 0 c", "del 1 b",
-		"gd 0 a 5", "clone 0 1", "clone 1 0", "pmerge 0 1", "pmerge 1 0", "pmerge 0 0", "merge 0 1", "merge 1 0",
-		"addk 0 A", "addk 0 C", "addk 1 C,_", "delk 0 A", "delk 1 A", "delk 0 C", "delk 1 B,C",
+		"set 0 a 2", "set 1 a 3", "set 0 a 0", "set 1 b 4", "setall 0 a:1,c:5", "setall 1 nil", "del 0 a", "del 1 a", "del 0 c", "del 1 b",
+		"gd 0 a 5", "gf 0 c 5 d,a", "clone 0 1", "clone 1 0", "pmerge 0 1", "pmerge 1 0", "pmerge 0 0", "merge 0 1", "merge 1 0",
+		"addk 0 A", "addk 0 C", "addk 1 C,_", "delk 0 A", "delk 1 A", "delk 0 C", "delk 1 B,C", "drv 0",
 	}
 	propsOnly := []string{
 		"set 0 a 2", "set 1 a 3", "set 0 b 0", "setall 1 a:1,c:5", "del 0 a", "del 1 a", "del 1 c",
 		"clone 0 1", "pmerge 0 1", "pmerge 1 0", "merge 1 0",
+	}
+	relOnly := []string{
+		"set 0 a 2", "set 1 a 3", "set 0 b 0", "setall 1 a:1,c:5", "del 0 a", "del 1 a", "del 1 c",
+		"clone 0 1", "rmerge 0 1", "rmerge 1 0", "pmerge 0 1",
 	}
 	kindsOnly := []string{
 		"addk 0 A", "addk 1 A", "addk 0 C", "addk 1 C", "delk 0 A", "delk 1 A", "delk 0 C", "delk 1 C,B", "merge 0 1", "merge 1 0",
@@ -568,30 +853,48 @@ func (c12Suite) Gen(rng *Rng, tier string, w *bufio.Writer, stats *Stats) {
 	}
 	loads := []string{"a:1,b:2 A,B", "nil -", "- B"}
 	exhaustive("ex-full-3", loads, full, 3)
+	// every constructor x entity kind, two operations (initial tracking state, lazy allocation, empty SetAll, reads)
+	var ctorLoads []string
+	for _, mc := range [][2]string{{"nil", "as"}, {"nil", "asnil"}, {"nil", "new"}, {"nil", "red"}, {"-", "as"}, {"-", "sym"}, {"-", "pm"},
+		{"a:1,b:0", "as"}, {"a:1,b:0", "sym"}, {"a:1,b:0", "pm"}} {
+		for _, ent := range []string{"node", "prep", "rel", "prel"} {
+			ctorLoads = append(ctorLoads, fmt.Sprintf("%s B %s %s", mc[0], mc[1], ent))
+		}
+	}
+	ctorOps := []string{"set 0 a 2", "del 1 a", "setall 0 -", "setall 1 nil", "gd 0 b 5", "gf 1 c 3 b,a", "keys 0", "len 1", "clone 0 1", "pmerge 1 0"}
+	exhaustive("ex-ctor-2", ctorLoads, ctorOps, 2)
 	if tier == "thorough" {
 		exhaustive("ex-mid-4", []string{"a:1,b:2 A,B", "nil -"}, mid, 4)
 		exhaustive("ex-props-5", []string{"a:1,b:2 A"}, propsOnly, 5)
 		exhaustive("ex-kinds-5", []string{"nil A,B"}, kindsOnly, 5)
+		exhaustive("ex-rel-4", []string{"a:1,b:2 A as rel", "nil B new prel", "- C pm rel"}, relOnly, 4)
 	} else {
 		exhaustive("ex-props-4", []string{"a:1,b:2 A"}, propsOnly, 4)
 		exhaustive("ex-kinds-4", []string{"nil A,B"}, kindsOnly, 4)
+		exhaustive("ex-rel-3", []string{"a:1,b:2 A as rel", "nil B new prel", "- C pm rel"}, relOnly, 3)
 	}
-	// Random long histories over 4 keys / 3 kinds / 10 values, two entities.
+	// Random long histories over 4 keys / 3 kinds / 10 values, two entities; 1 case in 4 drives relationships.
 	n := 1500
 	if tier == "thorough" {
 		n = 30000
 	}
 	for i := 0; i < n; i++ {
-		var load string
-		switch rng.Intn(6) {
-		case 0:
+		isRel := rng.Chance(1, 4)
+		var load, ctor string
+		if rng.Intn(6) == 0 {
 			load = "nil"
-		default:
+			ctor = Pick(rng, []string{"as", "asnil", "new", "red"})
+		} else {
 			load = c12PickMap(rng, 4, true)
+			ctor = Pick(rng, []string{"as", "as", "sym", "pm"})
 		}
-		load += " " + c12PickKinds(rng, false, false)
+		if isRel {
+			load += " " + Pick(rng, c12Kinds) + " " + ctor + " " + Pick(rng, []string{"rel", "prel"})
+		} else {
+			load += " " + c12PickKinds(rng, false, false) + " " + ctor + " " + Pick(rng, []string{"node", "node", "prep"})
+		}
 		length := 5 + rng.Intn(56)
-		// op mix: some cases are merge heavy, some have none at all (the `_partial` fragment)
+		// op mix: some cases are merge heavy, some have none at all
 		mergeW := Pick(rng, []int{0, 1, 2, 4})
 		ops := make([]string, 0, length)
 		for j := 0; j < length; j++ {
@@ -601,7 +904,11 @@ func (c12Suite) Gen(rng *Rng, tier string, w *bufio.Writer, stats *Stats) {
 				f = e
 			}
 			k := Pick(rng, c12Keys)
-			switch x := rng.Intn(20 + mergeW); {
+			x := rng.Intn(21 + mergeW)
+			if isRel && x >= 12 && x < 21 { // no kind operations, no node consumers on a relationship
+				x = rng.Intn(12)
+			}
+			switch {
 			case x < 5:
 				v := 1 + rng.Intn(9)
 				if rng.Chance(1, 8) {
@@ -609,17 +916,29 @@ func (c12Suite) Gen(rng *Rng, tier string, w *bufio.Writer, stats *Stats) {
 				}
 				ops = append(ops, fmt.Sprintf("set %d %s %d", e, k, v))
 			case x < 6:
-				ops = append(ops, fmt.Sprintf("setall %d %s", e, c12PickMap(rng, 3, true)))
+				m := c12PickMap(rng, 3, true)
+				if rng.Chance(1, 6) {
+					m = "nil"
+				}
+				ops = append(ops, fmt.Sprintf("setall %d %s", e, m))
 			case x < 10:
 				ops = append(ops, fmt.Sprintf("del %d %s", e, k))
 			case x < 11:
-				switch rng.Intn(4) {
+				switch rng.Intn(6) {
 				case 0:
 					ops = append(ops, fmt.Sprintf("get %d %s", e, k))
 				case 1:
 					ops = append(ops, fmt.Sprintf("gd %d %s %d", e, k, rng.Intn(10)))
 				case 2:
 					ops = append(ops, fmt.Sprintf("ex %d %s", e, k))
+				case 3:
+					fb := Pick(rng, c12Keys)
+					if rng.Bool() {
+						fb += "," + Pick(rng, c12Keys)
+					}
+					ops = append(ops, fmt.Sprintf("gf %d %s %d %s", e, k, rng.Intn(10), fb))
+				case 4:
+					ops = append(ops, fmt.Sprintf("keys %d", e))
 				default:
 					ops = append(ops, fmt.Sprintf("len %d", e))
 				}
@@ -629,15 +948,24 @@ func (c12Suite) Gen(rng *Rng, tier string, w *bufio.Writer, stats *Stats) {
 				ops = append(ops, fmt.Sprintf("addk %d %s", e, c12PickKinds(rng, true, true)))
 			case x < 20:
 				ops = append(ops, fmt.Sprintf("delk %d %s", e, c12PickKinds(rng, false, true)))
+			case x < 21:
+				ops = append(ops, fmt.Sprintf("drv %d", e))
 			default:
-				if rng.Bool() {
+				switch {
+				case isRel && rng.Chance(2, 3):
+					ops = append(ops, fmt.Sprintf("rmerge %d %d", e, f))
+				case isRel || rng.Bool():
 					ops = append(ops, fmt.Sprintf("pmerge %d %d", e, f))
-				} else {
+				default:
 					ops = append(ops, fmt.Sprintf("merge %d %d", e, f))
 				}
 			}
 		}
-		emit("rand", load, ops)
+		if isRel {
+			emit("rand-rel", load, ops)
+		} else {
+			emit("rand", load, ops)
+		}
 		stats.Inc("random_cases")
 	}
 	c12Probes(stats)
